@@ -445,6 +445,13 @@ def check_scenario(arg):
         if prop == 'C05':
             oblige('failed_or_cancelled_never_skipped', [(p, tr.script_result != 0) for p in skipped], 'script failed / was cancelled => next run is not Skipped')
             oblige('no_record_no_skip', [(p, z3.Not(wz)) for p in skipped], 'without a complete record from an earlier run nothing is Skipped')
+        if prop == 'C06':
+            # "no detected change is absorbed by a skip": inputs differ between the start of the script (epoch 0) and the
+            # moment the record is computed (epoch 1); nothing changes afterwards; the re-run must not be Skipped
+            sc_in = Scenario(sc.name, sc.paths, sc.in_files, sc.in_cmds, [], [])
+            changed_during = z3.Not(unchanged_spec(w, sc_in, 0, 1))
+            oblige('change_during_build_is_not_absorbed', [(p, z3.And(wz, changed_during, identical_spec(w, sc, 1, 2))) for p in skipped],
+                   'a declared input changed while the script was running and nothing changed afterwards => the next run is not Skipped')
         if prop == 'C18':
             allowed = {sc.state_file, '/p/.zinoma'}
             viol = []
